@@ -75,7 +75,159 @@ def flagged_class(mg):
 def cases(tier):
     out = [{"kind": "prog", "name": "prog/%s" % n, "prog": n} for n in PROGRAMS]
     out.append({"kind": "dtype", "name": "dtype-rules"})
+    # flag inference over the whole operation registry: every C02 case body, leaves with symbolic constant flags / as bare arrays
+    from . import C02
+
+    from . import viewprog as vp
+
+    # bodies with an in-place statement are excluded (the target keeps its own flag: programs above and C04)
+    cs = [c for c in C02.cases(tier) if c.get("kind") != "crosshair" and "constant=" not in c["body"]
+          and not any(vp.is_inplace(l) for l in c["body"].split("\n"))]
+    for i in range(0, len(cs), 40):
+        out.append({"kind": "sweep", "name": "sweep/%d" % i, "c02": cs[i:i + 40]})
     return out
+
+
+def _sweep_kinds(k):
+    """operand kinds for the bare-array passes: A = plain ndarray, K = constant tensor, V = non-constant tensor"""
+    pats = {"A" * k, "K" * k}
+    for i in range(k):
+        pats.add("".join("A" if j == i else "K" for j in range(k)))
+        pats.add("".join("K" if j == i else "A" for j in range(k)))
+        pats.add("".join("V" if j == i else "A" for j in range(k)))
+    return sorted(pats)
+
+
+def run_sweep(spec, tier, mg):
+    res = common.new_result()
+    FT = flagged_class(mg)
+    res["bodies"] = 0
+    for cs in spec["c02"]:
+        engine = eng_mod.Engine(skip_ties=True)
+        engine.reset_fn = lib.reset_state
+        env0 = gradcase.make_env(mg)
+        findings = []
+        names = [e[0] for e in cs.get("leaves", [])]
+
+        def build(kinds, symbolic_flags):
+            env = dict(env0)
+            for name, shape in cs.get("carrs", []):
+                env[name] = symarr(name, tuple(shape))
+            if cs.get("setup"):
+                exec(cs["setup"], env)
+            T = {}
+            for ent, kd in zip(cs.get("leaves", []), kinds):
+                a = gradcase.mk_leaf(ent[0], ent[1], ent[2] if len(ent) > 2 else "C")
+                if symbolic_flags:
+                    t = FT(a)
+                    t._constant = SymBool(tm.bvar("const_" + ent[0]))
+                elif kd == "A":
+                    t = np.array(a, dtype=object)
+                else:
+                    t = mg.Tensor(a, constant=(kd == "K"))
+                T[ent[0]] = t
+                env[ent[0]] = t
+            if cs.get("assume"):
+                e2 = dict(env)
+                e2.update(gradcase._assume_helpers(engine))
+                exec(cs["assume"], e2)
+            return env, T
+
+        def body():
+            rows = []
+            env, T = build("V" * len(names), True)
+            exec(cs["body"], env)
+            out = env["out"]
+            flags = {n: bool(t._constant) for n, t in T.items()}
+            oc = out.constant
+            if not oc:
+                out.backward()
+            rows.append(("symbolic flags %s" % flags, oc, all(flags.values()), {n: (flags[n], T[n].grad is not None) for n in T}))
+            for kinds in _sweep_kinds(len(names)):
+                lib.reset_state()
+                try:
+                    env, T = build(kinds, False)
+                    exec(cs["body"], env)
+                    out = env["out"]
+                    if not isinstance(out, mg.Tensor):
+                        continue
+                    oc = out.constant
+                    if not oc:
+                        out.backward()
+                except Exception:  # this operand-kind assignment is not expressible for the body (e.g. a Tensor method on an array)
+                    continue
+                rows.append(("operands %s" % dict(zip(names, kinds)), oc, "V" not in kinds,
+                             {n: (kinds[i] != "V", isinstance(T[n], mg.Tensor) and T[n].grad is not None) for i, n in enumerate(names)}))
+            return rows
+
+        try:
+            for p in engine.explore(body, max_paths=16, max_seconds=20):
+                res["paths"] += 1
+                if p.exc is not None:
+                    continue  # C02 reports library errors on these bodies; no flag fact on such a path
+                for tag, oc, exp, per in p.out:
+                    res["unsat"] += 1
+                    if oc != exp:
+                        findings.append("%s: out.constant is %s, expected %s" % (tag, oc, exp))
+                    for n, (is_const, has_grad) in per.items():
+                        if is_const and has_grad:
+                            findings.append("%s: constant operand %s acquired a gradient" % (tag, n))
+                        if oc and has_grad:
+                            findings.append("%s: the result is constant but %s has a gradient" % (tag, n))
+        except eng_mod.Budget:
+            pass
+        res["bodies"] += 1
+        if findings:
+            rp = _sweep_replay(cs)
+            if rp:
+                res["status"] = common.VIOLATION
+                res["violations"].append({"signature": "const-sweep:%s" % cs["name"], "replay": rp,
+                                          "summary": "`%s`: %s" % (cs["body"].replace("\n", "; "), "; ".join(sorted(set(findings))[:3]))})
+            else:
+                res["status"] = common.INCONCLUSIVE
+                res["notes"].append("did not reproduce: %s :: %s" % (cs["name"], findings[:2]))
+    res["sample"] = {"body": spec["c02"][0]["body"], "rule": "out.constant == (no operand is a non-constant tensor); constants never acquire .grad"}
+    return res
+
+
+def _sweep_replay(cs):
+    src = '''import sys, itertools
+import numpy as np
+import mygrad as mg
+import mygrad.nnet as nnet
+from mygrad.nnet.activations import *
+from mygrad.nnet.layers import *
+from mygrad.nnet.losses import *
+CS = %r
+rng = np.random.RandomState(5)
+names = [e[0] for e in CS.get("leaves", [])]
+bad = []
+for kinds in itertools.product("AKV", repeat=len(names)):
+    env = dict(globals())
+    for name, shape in CS.get("carrs", []): env[name] = np.asarray(rng.rand(*shape) * 0.5 + 0.25)
+    if CS.get("setup"): exec(CS["setup"], env)
+    T = {}
+    for ent, kd in zip(CS["leaves"], kinds):
+        a = np.asarray(rng.rand(*ent[1]) * 0.5 + 0.25)
+        if len(ent) > 2 and ent[2] == "F" and len(ent[1]) >= 2: a = np.asfortranarray(a)
+        T[ent[0]] = a if kd == "A" else mg.Tensor(a, constant=(kd == "K"))
+        env[ent[0]] = T[ent[0]]
+    try:
+        exec(CS["body"], env); out = env["out"]
+        if not isinstance(out, mg.Tensor): continue
+        if not out.constant: out.backward()
+    except Exception:
+        continue
+    if out.constant != ("V" not in kinds): bad.append((kinds, "out.constant", out.constant))
+    for n, kd in zip(names, kinds):
+        if kd == "K" and T[n].grad is not None: bad.append((kinds, n, "constant operand has grad"))
+print(bad[:6])
+print('REPRODUCED' if bad else 'NOT-REPRODUCED'); sys.exit(1 if bad else 0)
+''' % ({k: v for k, v in cs.items() if k in ("name", "body", "leaves", "carrs", "setup")},)
+    path = common.write_replay(PROP, gradcase._safe("sweep_" + cs["name"]), src)
+    ok, out = common.run_replay(path)
+    return path if ok else None
+
 
 
 def run_prog(spec, tier, mg):
@@ -331,6 +483,8 @@ def run_case(spec, tier):
     mg = common._WORKER["mg"]
     if spec["kind"] == "prog":
         return run_prog(spec, tier, mg)
+    if spec["kind"] == "sweep":
+        return run_sweep(spec, tier, mg)
     return run_dtype_rules(spec, tier, mg)
 
 
